@@ -323,7 +323,19 @@ namespace sqf::runtime
                     { // it is not
                         // Lookup inherited node and replace it
                         auto nav = lookup_in_logical(inherited);
-                        replaced.id_parent_inherited = nav.m_index;
+                        // The inheritance relation has to stay acyclic: a base that is the class
+                        // itself, or that already derives from it, is refused (base stays as it was).
+                        bool cyclic = false;
+                        size_t steps = 0;
+                        for (auto index = nav.m_index; index != config::invalid_id && steps <= m_confighost.m_containers.size(); ++steps)
+                        {
+                            if (index == replaced.id) { cyclic = true; break; }
+                            index = m_confighost.m_containers.at(index).id_parent_inherited;
+                        }
+                        if (!cyclic)
+                        {
+                            replaced.id_parent_inherited = nav.m_index;
+                        }
                     }
 
                     // Return found container as confignav
